@@ -57,32 +57,47 @@ func (c *Ctx) SEC(rule string) []report.Obligation {
 			}
 		}
 	}
-	apply := c.P.Func("types.(*marshallOptions).apply")
-	switch {
-	case apply == nil:
-		out = append(out, anchorViolation(rule+"-3", "types.(*marshallOptions).apply"))
-	case len(writers) == 1 && writers[0] == "types.(*marshallOptions).apply":
-		out = append(out, ok(rule+"-3", "marshallContent :: single writer", c.P.Pos(apply.Pos()), "the opt-in flag is set only in (*marshallOptions).apply"))
-		// the flag is set on a deep copy: apply does not write through its project argument
-		for _, o := range c.IMM(rule+"-3", []immTarget{{Fn: apply, Src: 1, WhatSrc: "the project being rendered", CheckRet: false}}) {
-			out = append(out, o)
+	// every writer of the flag (whatever it is called) sets it under the explicit option, on a copy
+	wset := map[string]bool{}
+	for _, w := range writers {
+		wset[w] = true
+	}
+	if len(wset) == 0 {
+		out = append(out, bad(rule+"-3", "marshallContent :: writer", "", "no function sets the opt-in flag any more: the rule sees nothing"))
+	}
+	for _, w := range sortedKeys(wset) {
+		wf := c.P.Func(w)
+		if wf == nil {
+			out = append(out, anchorViolation(rule+"-3", w))
+			continue
+		}
+		out = append(out, verdict(strings.HasPrefix(w, "types."), rule+"-3", "marshallContent :: written inside package types only", c.P.Pos(wf.Pos()),
+			"the opt-in flag is set in "+w, "the opt-in flag is written outside package types, in "+w))
+		// the flag is set on a deep copy: the writer does not write through its project argument
+		for pi, pa := range wf.Params {
+			if pt, isP := pa.Type().(*types.Pointer); isP {
+				if nt, isN := pt.Elem().(*types.Named); isN && nt.Obj().Name() == "Project" {
+					out = append(out, c.IMM(rule+"-3", []immTarget{{Fn: wf, Src: pi, WhatSrc: "the project being rendered", CheckRet: false}})...)
+				}
+			}
 		}
 		// and only under the explicit option
-		gated := false
-		for _, b := range apply.Blocks {
+		gated, n := true, 0
+		for _, b := range wf.Blocks {
 			for _, in := range b.Instrs {
 				if st, isSt := in.(*ssa.Store); isSt {
-					if fa, isFA := st.Addr.(*ssa.FieldAddr); isFA && fieldName(fa) == "marshallContent" {
-						gated = factHolds(b, func(cond ssa.Value, val bool) bool { return val && loadedField(cond) == "secretsContent" }) ||
-							ctrlDepOnField(apply, b, "secretsContent")
+					if fa, isFA := st.Addr.(*ssa.FieldAddr); isFA && fieldName(fa) == "marshallContent" && loadedField(st.Val) != "marshallContent" {
+						n++
+						if !(factHolds(b, func(cond ssa.Value, val bool) bool { return val && loadedField(cond) == "secretsContent" }) ||
+							ctrlDepOnField(wf, b, "secretsContent")) {
+							gated = false
+						}
 					}
 				}
 			}
 		}
-		out = append(out, verdict(gated, rule+"-3", "marshallContent :: set only when requested", c.P.Pos(apply.Pos()),
+		out = append(out, verdict(gated && n > 0, rule+"-3", "marshallContent :: set only when requested", c.P.Pos(wf.Pos()),
 			"the store is control dependent on the secretsContent option", "the flag is set without testing the secretsContent option: content is rendered by default"))
-	default:
-		out = append(out, bad(rule+"-3", "marshallContent :: single writer", "", fmt.Sprintf("the opt-in flag is written in %v", writers)))
 	}
 	// ---- SEC-4 / SEC-5: the carrier key
 	xvalue := ""
